@@ -237,6 +237,73 @@ def generate(rng: random.Random, tier: str):
                 yield frame_case(rng, fam, g, doc, docs, rng.randint(2, 6 if quick else 10))
 
 
+    # arguments the CALLER owns (appended stream): mark lists in arbitrary order and attribute dicts handed to the
+    # constructors must come back as they went in
+    for fam in gen.FAMILY:
+        g, docs = S.family_docs(rng, fam, 3 if quick else 30, maxsize=40)
+        for doc in docs:
+            yield caller_args_case(rng, fam, g, doc)
+
+
+def caller_args_case(rng, fam, g, doc):
+    info = S.info_for(fam)
+    sc = gen.family(fam)
+    reg = Registry()
+    for shared in (Fragment.empty, Mark.none, Slice.empty, StepMap.empty):
+        reg.see(shared)
+    reg.see(doc)
+    problems = []
+    ops = []
+
+    def unsorted_marks():
+        ms = [S.rand_mark(rng, sc) for _ in range(rng.randint(2, 3))]
+        ms.sort(key=lambda m: -m.type.rank)
+        return ms
+    tb = [t for t in sc.nodes.values() if t.is_textblock and not t.has_required_attrs()]
+    for _ in range(6):
+        ms = unsorted_marks()
+        reg.see(ms)
+        before = snap(ms)
+        kind = rng.choice(["text", "create", "mark", "set_from", "set_node_markup", "add_to_set"])
+        try:
+            if kind == "text":
+                n = sc.text("t", ms)
+                reg.see(n)
+            elif kind == "create" and tb:
+                n = rng.choice(tb).create(None, sc.text("x"), ms)
+                reg.see(n)
+            elif kind == "mark":
+                n = sc.text("u").mark(ms)
+                reg.see(n)
+            elif kind == "set_from":
+                reg.see(Mark.set_from(ms))
+            elif kind == "add_to_set":
+                reg.see(S.rand_mark(rng, sc).add_to_set(ms))
+            elif kind == "set_node_markup":
+                tr = Transform(doc)
+                pos = [p for p, n in S.all_positions_with_nodes(doc) if not n.is_text]
+                if pos:
+                    p0 = rng.choice(pos)
+                    tr.set_node_markup(p0, None, None, ms)
+                    reg.see(tr.doc)
+        except (TransformError, ValueError):
+            pass
+        except Exception as e:  # noqa: BLE001
+            ops.append(["crash", kind, f"{type(e).__name__}: {e}"[:100]])
+        ops.append([kind, [m.to_json() for m in ms]])
+        if snap(ms) != before:
+            problems.append({"after_op": len(ops) - 1, "op": ops[-1], "changed": [{"kind": "caller-list", "before": str(before)[:200], "after": str(snap(ms))[:200]}]})
+            break
+        ch = reg.changed()
+        if ch:
+            problems.append({"after_op": len(ops) - 1, "op": ops[-1], "changed": ch[:3]})
+            break
+    coq = f"CFrame @S@ {info.node(doc)} [] {info.node(doc)} {b(not problems)} true"
+    desc = {"case": "frame", "family": fam, "doc": doc.to_json(), "ops": ops, "problems": problems,
+            "accumulators_append_only": True, "objects_tracked": len(reg.objs)}
+    return Case(coq=coq, desc=desc, schema=info.schema_term(), kind="caller-arguments", nontrivial=True)
+
+
 def coverage(cases):
     return {"objects_tracked_total": sum(c.desc.get("objects_tracked", 0) for c in cases)}
 
